@@ -8,8 +8,8 @@
 export GOFLAGS=-mod=mod GOPROXY=off GOSUMDB=off GOTOOLCHAIN=local
 id=$1; n=$2; shift 2
 props=${*:-$id}
-src=/tmp/wt/out/$id/$n
-dst=/verif/seeded/$id-$n
+src=${SEEDSRC:-/tmp/wt/out}/$id/$n
+dst=/verif/seeded/${SEEDTAG}$id-$n
 [ -f $src/patch.diff ] || { echo "no patch at $src"; exit 2; }
 wt=/tmp/wt/verify_${id}_$n
 git -C /repo worktree remove --force $wt 2>/dev/null
